@@ -57,6 +57,12 @@ pub fn dump_map<K: KeyT, V: ValT>(m: &Map<K, V>) -> String {
         None => s.push_str(" a=-"),
     }
     let _ = write!(s, " sing={} salt={}", d.singleton as u8, m.hasher().salt);
+    // address tie (Model/Addr.v): where the library puts the first and the last element slot, relative
+    // to the start of the block
+    if let (true, Some((_sz, _al, off))) = (d.bucket_mask != 0, d.alloc) {
+        let base = d.ctrl_addr - off;
+        let _ = write!(s, " ad={},{}", m.verif_bucket_addr(0) as i128 - base as i128, m.verif_bucket_addr(d.bucket_mask) as i128 - base as i128);
+    }
     // alignment facts of the live block (C02): ctrl pointer aligned to the group width and to T
     let (_, ctrl_align) = Map::<K, V>::verif_table_layout();
     if d.bucket_mask != 0 && d.ctrl_addr % ctrl_align != 0 {
@@ -145,6 +151,11 @@ pub fn apply_directive(w: &[&str]) -> bool {
                 "max" => 2,
                 "calldep" => 3,
                 "calldep_near" => 4,
+                r if r.starts_with("calldep_win:") => {
+                    let p: Vec<u64> = r["calldep_win:".len()..].split(':').map(parse_u64).collect();
+                    with_ctx(|c| c.hash_window = (p[0], p[1]));
+                    5
+                }
                 _ => panic!("hashrule"),
             };
             with_ctx(|c| c.hash_rule = r);
